@@ -141,13 +141,13 @@ package airgapped
 //@   epilogue $handlerErr = (result != nil)
 //@   assert@call TasksToMessages[C03.sign.expansion] msgs == loc(signingTasks)
 //@   assert@call createPartialSign[C03.sign.payload] msg == loc(s).Payload && dkgIdentifier == o.DKGIdentifier
-//@   loop 0 invariant len(signs) == $i + 1 && (forall j int :: 0 <= j && j <= $i ==> signs[j].MessageID == $range[j].MessageID)
-//@   loop 0 invariant o.DKGIdentifier == old(o.DKGIdentifier)
+//@   loop 0 invariant o.DKGIdentifier == old(o.DKGIdentifier) && wfMachine(am)
 
 //@ func (*Machine).loadBLSKeyring
 //@   safety C18
 //@   nosafety
 //@   requires am != nil
-//@   pure
+//@   modifies *
 //@   modifies $bufc
+//@   ensures unchanged("Machine.dkgInstances", "map[string]*dkg.DKG", "dkg.DKG.instance", "client.Operation.DKGIdentifier")
 //@   ensures[C18.keyring.nonnil] result1 == nil ==> result0 != nil
